@@ -1,5 +1,6 @@
 """C12 - every shuffle is a permutation, for every iterator in flight."""
 import itertools
+import common
 import json
 import random
 import warnings
@@ -38,6 +39,7 @@ def perm_between(before, after):
 
 def reshuffle_history(n, script, seed):
     """script: list of iterator ids; each occurrence = one next() on that iterator (the first one starts it)"""
+    common.gc_point()
     rng = RecRng(seed)
     with warnings.catch_warnings():
         warnings.simplefilter('ignore')
